@@ -474,8 +474,12 @@ def _get_comp_cls_media(comp_cls: Type["Component"]) -> Any:
             #
             # However, the `__add__` converts our `media_cls` to Django's Media class.
             # So we also have to convert it back to `media_cls`.
+            # NOTE: We keep the individual lists (instead of flattening them with `_js` / `_css`), so that
+            #       Django merges all of them at once and respects the order declared in each of them.
             merged_media = media + base_media
-            media = media_cls(js=merged_media._js, css=merged_media._css)
+            media = media_cls()
+            media._js_lists = merged_media._js_lists
+            media._css_lists = merged_media._css_lists
 
         # Lastly, cache the merged-up Media, so we don't have to search further up the MRO the next time
         media_cache[curr_cls] = media
